@@ -40,8 +40,10 @@ LEVEL_NOTE = ("Trusted: Lean kernel; t2_gql_tokens (the reference lexer itself i
               "the implementation's strings on every run instead.")
 PARTIAL = ["no model of the whole compile step: the theorems are about the artifact text, the merged selection map and the validator; "
            "C09_valid_partial takes the parse and validity of the text as hypotheses",
-           "F11 (negative int / collapsing string aliases), user variable named `id`, required input-object fields: open findings with "
-           "witness theorems or corpus cases; F13 (apostrophe), F12 / F12b (variables inside object arguments), non-null list variables "
+           "open findings with witness theorems or corpus cases: F11 (negative int / collapsing string aliases), user variable named like the "
+           "refetch machinery's `$id` or like an argument of an exposed mutation field, required input-object fields, `__typename` next to the "
+           "field of a subscription, same-named fields of different types in sibling `asConcreteType` selections, a selection set that holds "
+           "only client pointers (printed empty); F13 (apostrophe), F12 / F12b (variables inside object arguments), non-null list variables "
            "and unused variables below client pointers were repaired (dc59a0f, af3b32d, e06371c, 31b992f)",
            "custom scalars accept any literal; directives other than @skip/@include are reported as unknown (the compiler emits none)",
            "persisted documents (compact text in persisted_documents.json) are covered by C26, not here"]
